@@ -18,6 +18,7 @@ def dispatch (line : String) : String :=
     match toks with
     | "sig" :: _ | "delta" :: _ | "patch" :: _ => C01.handle toks
     | "bi" :: _ | "biplan" :: _ => C02.handle toks
+    | "bisteps" :: _ => C08.handle toks
     | "ow" :: _ => C04.handle toks
     | "serve" :: _ | "safejoin" :: _ => C12.handle toks
     | "ck" :: _ => C17.handle toks
